@@ -286,6 +286,20 @@ def lnRun (s : Ln) : List LnAct → Ln
     | some s' => lnRun s' as
     | none => lnRun s as
 
+/-- the variant in which an `Accept` error that is not caused by `Stop` makes `listen` return (the
+error is handed to the caller) — without resetting `listening`, without anybody left to answer on
+`quitListener` -/
+def lnStepReturnOnErr (s : Ln) : LnAct → Option Ln
+  | .checkQuit =>
+    if s.loop = .gotErr then some { s with loop := if s.quitClosed then .sendQuit else .returned } else none
+  | a => lnStep s a
+
+def lnRunReturnOnErr (s : Ln) : List LnAct → Ln
+  | [] => s
+  | a :: as => match lnStepReturnOnErr s a with
+    | some s' => lnRunReturnOnErr s' as
+    | none => lnRunReturnOnErr s as
+
 def LnStopPc.rank : LnStopPc → Nat
   | .want => 3 | .waiting => 2 | .finishing => 1 | .returned => 0
 
